@@ -37,7 +37,15 @@ def build_scenarios(wd, proto, n, t, kinds, seed, limit=None, scheds=1, cross=Fa
     return scen, total, cat
 
 
-def run_family(rep, wd, plan, prop, seed, count_props, shards=8):
+def _abort_site(detail):
+    if "round 7: failed to validate Delta MtA Nth proof" in detail:
+        return "presign/abort1.StoreBroadcastMessage"
+    if "round 8: failed to validate Delta MtA Nth proof" in detail:
+        return "presign/abort2.StoreBroadcastMessage"
+    return "other"
+
+
+def run_family(rep, wd, plan, prop, seed, count_props, shards=8, extra_scen=()):
     """plan: list of dicts(proto,n,t,kinds,limit,scheds,alts,cross). Runs everything, reports violations whose
     property is in count_props plus every trace problem. Returns aggregated stats."""
     scen = []
@@ -50,6 +58,10 @@ def run_family(rep, wd, plan, prop, seed, count_props, shards=8):
         cat_total += total
         states += cat["tlc"]["distinct"]; trans += cat["tlc"]["generated"]
         rep.notes.append("FaultCat.tla %s n=%d: %d catalogue cases for %s, %d scenarios run" % (p["proto"], p["n"], total, "+".join(p["kinds"]), len(sc)))
+    for x in extra_scen:
+        x = dict(x)
+        x["id"] = len(scen)
+        scen.append(x)
     outcomes, problems, stats = hc.run_adversarial(wd, scen, "adv", seed, shards=shards)
     states += stats["distinct"]; trans += stats["generated"]
     by_id = {s["id"]: s for s in scen}
@@ -69,6 +81,8 @@ def run_family(rep, wd, plan, prop, seed, count_props, shards=8):
                 key = {"proto": s["proto"], "what": v["what"]}
                 if v.get("site"):
                     key = {"what": v["what"], "site": v["site"]}
+                if s["kind"] == "presigncheat":
+                    key = {"what": v["what"], "site": _abort_site(v["detail"])}
                 rep.violation(key, "%s, scenario %s: %s" % (s["proto"], json.dumps({k: s[k] for k in s if k not in ("id", "sched")}, sort_keys=True), v["detail"]),
                               {"scenario": s, "violation": v, "status": o["status"]})
             else:
